@@ -60,6 +60,12 @@ class Report:
     def analysis_error(self, rule, instance, err, where=""):
         self.ob(rule, instance, False, "analysis-error: %s" % err, where, key="analysis-error|%s|%s" % (rule, instance))
 
+    def undecided(self, rule, instance, err, where=""):
+        """A rule that goes beyond the always-on ones could not follow this tree's code: no verdict here, and no
+        alarm — the evidence says which rule stood down and why (the always-on rules still apply)."""
+        self.not_decided.append("%s / %s: not decided on this tree (%s)" % (rule, instance, str(err)[:300]))
+        self.extra.setdefault("stood_down", []).append({"rule": rule, "instance": instance, "why": str(err)[:300], "where": where})
+
     def floor(self, what, n, floor):
         """Fail closed when a rule matched fewer instances than counted by hand on the pinned tree."""
         self.counts[what] = n
